@@ -45,6 +45,11 @@ CHECKS = {
    text="The real conversion functions (ToDate/Date.Time, ToDate32, ToDateTime, ToDateTime64/DateTime64.Time at each precision 0..9, Precision.Scale, Int128/256 and UInt128/256 helpers, bin*/binPut*, IPv4/IPv6 mappings, Interval.Add) and the parts of package time they call (Unix, In, Zone, FixedZone, Add, IsZero) are executed symbolically; the raw value ranges over its WHOLE type or documented range (all 65536 Dates, all 2^32 DateTimes, Date32 1900..2299, DateTime64 1900..2299 per precision), the instant (sec,nsec) and the fixed zone offset (-12h..+14h) are symbolic; the solver (integer-with-wrap encoding, z3 5.1.0) decides value->time->value identity, calendar-day = floor((unix+offset)/86400), |time->value->time| < 1 tick and exactness on multiples of the tick.",
    ref="DESIGN.md §4 C20",
    note="outside: named zones with DST (tzdata), AddDate's own calendar arithmetic (uninterpreted function of its arguments), intervals whose span exceeds time.Duration (about 292 years); netip 4/16-byte conversions modelled as identity; known finding: quarter added as 4 months (pinned by the repo's own test, so not repaired)"),
+ "C19": dict(
+   level="model_checking",
+   text="ColumnType.Base/Elem/Conflicts/decimalDowncast/normalizeCommas and ColAuto.Infer (with ColEnum.parse, ColDateTime64.Infer, ColMap.Infer, ColInterval.Infer, inferGenerated) are executed on type strings whose bytes are symbolic: (i) arbitrary strings up to 3-5 bytes (pairs for the relation), (ii) strings assembled from the library's vocabulary of 19 base names with symbolic or nested parameters (all ordered pairs), (iii) well-formed templates with symbolic digits / enumerated leaf types. Assertions: no panic, Conflicts(a,a)==false, Conflicts(a,b)==Conflicts(b,a), and on a nil error the created column's own Type() does not conflict with the request in either direction.",
+   ref="DESIGN.md §4 C19",
+   note="bounds: free strings <=3 (quick)/5 bytes for pairs, <=4/6 for Infer; parameters <=1-2 symbolic bytes; bytes restricted to 7-bit ASCII (unicode tables not interpreted); time.LoadLocation is a nondeterministic stub; DecimalNN(S) spellings are checked for totality only (the statement's equivalences name Decimal(P,S)<->DecimalNN); the unbounded-depth symmetry argument (abstract induction step of DESIGN) is not built"),
 }
 
 NA = {
